@@ -28,7 +28,7 @@ GATTR = st.dictionaries(st.sampled_from(['name2', 'meta', 'tags', 'edge_removal'
 
 
 def strategy(tier):
-    return st.tuples(gen.tiered(tier, max_ops=12, rejects=False, kinds=KINDS), GATTR).map(lambda x: dict(x[0], gattr=x[1]))
+    return st.tuples(gen.tiered(tier, max_ops=12, rejects=False, kinds=KINDS, shifts=True), GATTR).map(lambda x: dict(x[0], gattr=x[1]))
 
 
 _zero_factory = lambda: 0     # a module-level lambda: deep-copyable (by reference), not picklable
